@@ -8,7 +8,7 @@ version that was ever current. Atomic steps:
 
 * the updater (`Server::process_once`): parked before each lock acquisition; the only step that
   changes the served data is the write-lock section of `update` (`install`): it pushes the delta
-  (dropping the oldest if `keep` are retained) *and* replaces the snapshot in one critical section;
+  (dropping the oldest if `max keep 1` are retained) *and* replaces the snapshot in one critical section;
 * one atomic read step per request kind, each a single read-lock section in the code:
   HTTP data (`payload::handle_get_or_head`), HTTP delta (`delta::handle_get_or_head` incl.
   `delta_since`), HTTP notify answer (`session_and_serial`), RTR `ready`, `full`, `diff`, `notify`
@@ -85,9 +85,12 @@ inductive Label
   | req (k : Kind)
   deriving DecidableEq, Repr
 
-/-- `push_delta`: `if self.deltas.len() == self.keep { pop_back }; push_front`. -/
+/-- `push_delta` (as repaired for C14, /repo 3a526b9):
+`if self.deltas.len() >= cmp::max(self.keep, 1) { pop_back }; push_front`.
+Same rule as `History.pushDelta` of `Model/History.lean` (C13/C14), here over abstract deltas;
+`C15_pushDelta_agrees_with_history_model` relates the two definitions. -/
 def pushDelta (keep : Nat) (deltas : List Delta) (d : Delta) : List Delta :=
-  d :: (if deltas.length = keep then deltas.dropLast else deltas)
+  d :: (if deltas.length ≥ max keep 1 then deltas.dropLast else deltas)
 
 def stepU (s : State) (d : Nat) : Option State :=
   match s.upc with
